@@ -249,11 +249,30 @@ def stress_case(job) -> list:
     return viols
 
 
+def timeout_pass(ctx: core.Ctx):
+    """'Written when that node next announces it is awake' also when the application's wait for the next message
+    (the one that was handling the wake) timed out in the middle of the release: what was not written stays
+    parked and is written at the next wake, once. Reuses the schedule explorer and scenario of C09."""
+    from .. import explore
+    from . import c09
+
+    cfgs = [
+        {"version": "2.2", "parked": [c09.A, c09.B], "senders": [], "cancels": 1},
+        {"version": "2.1", "parked": [c09.A, c09.C, c09.I], "senders": [], "cancels": 1},
+        {"version": "2.0", "parked": [c09.A], "senders": [[c09.E]], "cancels": 1},
+    ]
+    res = explore.explore(ctx, c09.MOD, cfgs, 1)
+    viols = [core.Violation("C07|timeout|" + v.key.split("|", 1)[1], "the wait for the next message timed out during a release: " + v.what, dict(v.replay, race=True)) for v in res["violations"]]
+    return res["executions"], viols
+
+
 def run(ctx: core.Ctx) -> core.Report:
     sjobs = [(v, ns, ni) for v in (["2.1", "2.2"] if ctx.quick else ["2.0", "2.1", "2.2"]) for ns, ni in ((1, 0), (10, 10), (21, 0), (0, 11), (40, 15), (64, 29))]
     sres = core.pmap(stress_case, sjobs, ctx.workers)
     sviols = [core.Violation(k, w, rep) for r in sres for k, w, rep in r]
     res = bfs.search(ctx, MOD, configs(ctx), max_depth=40)
+    nto, tviols = timeout_pass(ctx)
+    sviols += tviols
     cov = {
         "states": res["states"],
         "transitions": res["transitions"],
@@ -269,7 +288,7 @@ def run(ctx: core.Ctx) -> core.Report:
         coverage=cov,
         violations=res["violations"] + sviols,
         assumptions=[
-            "sequential semantics only (concurrent send vs flush is C09)",
+            "sequential semantics (concurrent send vs flush is C09), plus a timeout pass: the wait that handles the wake is cancelled during a release write (three scenarios, every position, <= 1 early firing)",
             "1.x sleeping flag set directly on the Node (public attribute), as a loaded persistence file would",
             "a parked command made stale by re-presentation + direct write of a newer value may or may not be released (statement is silent)",
         ],
@@ -277,6 +296,11 @@ def run(ctx: core.Ctx) -> core.Report:
 
 
 def replay(data: dict) -> dict:
+    if data.get("race"):
+        from .. import explore
+        from . import c09
+
+        return explore.replay(c09.MOD, data)
     if "stress" in data:
         v = stress_case(tuple(data["stress"]))
         return {"violated": bool(v), "violations": [{"key": k, "what": w} for k, w, _ in v]}
